@@ -131,13 +131,16 @@ pub enum Op {
     Incoming { request: bool, tid: u8, from: u8 },
     Cancel(u8),
     CancelRetrans(u8),
-    Configure { tid: u8, rto: u64, n: u32, last: u64 },
+    /// configure_timeout(rto ms + rto_us µs, n, last ms + last_us µs)
+    Configure { tid: u8, rto: u64, n: u32, last: u64, rto_us: u16, last_us: u16 },
     SetRemote(u8),
     /// set_local_credentials: has no effect on any reply
     SetLocal(u8),
     /// StunAgent::send_data of `len` arbitrary bytes: produces a Transmit, changes nothing
     SendData { dest: u8, len: u16 },
     Advance(u64),
+    /// advance the virtual clock by a number of MICROseconds (changes the sub-millisecond phase)
+    AdvanceUs(u64),
 }
 
 #[derive(Clone, Debug)]
@@ -200,11 +203,12 @@ impl Op {
             Op::Incoming { request, tid, from } => json!({"op": "incoming", "request": request, "tid": tid, "from": from}),
             Op::Cancel(t) => json!({"op": "cancel", "tid": t}),
             Op::CancelRetrans(t) => json!({"op": "cancel_retransmissions", "tid": t}),
-            Op::Configure { tid, rto, n, last } => json!({"op": "configure", "tid": tid, "rto": rto, "n": n, "last": last}),
+            Op::Configure { tid, rto, n, last, rto_us, last_us } => json!({"op": "configure", "tid": tid, "rto": rto, "n": n, "last": last, "rto_us": rto_us, "last_us": last_us}),
             Op::SetRemote(c) => json!({"op": "set_remote", "creds": c}),
             Op::SetLocal(c) => json!({"op": "set_local", "creds": c}),
             Op::SendData { dest, len } => json!({"op": "send_data", "dest": dest, "len": len}),
             Op::Advance(ms) => json!({"op": "advance", "ms": ms}),
+            Op::AdvanceUs(us) => json!({"op": "advance_us", "us": us}),
         }
     }
     pub fn from_json(v: &Value) -> Option<Op> {
@@ -238,11 +242,12 @@ impl Op {
             "incoming" => Op::Incoming { request: v.get("request")?.as_bool()?, tid: u("tid")? as u8, from: u("from")? as u8 },
             "cancel" => Op::Cancel(u("tid")? as u8),
             "cancel_retransmissions" => Op::CancelRetrans(u("tid")? as u8),
-            "configure" => Op::Configure { tid: u("tid")? as u8, rto: u("rto")?, n: u("n")? as u32, last: u("last")? },
+            "configure" => Op::Configure { tid: u("tid")? as u8, rto: u("rto")?, n: u("n")? as u32, last: u("last")?, rto_us: u("rto_us").unwrap_or(0) as u16, last_us: u("last_us").unwrap_or(0) as u16 },
             "set_remote" => Op::SetRemote(u("creds")? as u8),
             "set_local" => Op::SetLocal(u("creds")? as u8),
             "send_data" => Op::SendData { dest: u("dest")? as u8, len: u("len")? as u16 },
             "advance" => Op::Advance(u("ms")?),
+            "advance_us" => Op::AdvanceUs(u("us")?),
             _ => return None,
         })
     }
@@ -368,6 +373,7 @@ pub struct Tx {
     pub to: usize,
     pub had_integrity: bool,
     pub k: usize,
+    /// virtual instant of the last hand-out, in MICROseconds from the run's base (iv / fin are ms)
     pub last: u64,
     pub iv: Vec<u64>,
     pub fin: u64,
@@ -397,17 +403,17 @@ impl Tx {
             return (0, 0, Action::Cancelled);
         }
         if self.k < self.iv.len() {
-            let e = self.last + self.iv[self.k];
+            let e = self.last + self.iv[self.k] * 1000;
             if self.send_cancelled {
                 // may be reported at its next interval (what the implementation does) or as late
                 // as the final timeout had the schedule run on silently
-                let l = self.last + self.iv[self.k..].iter().sum::<u64>() + self.fin;
+                let l = self.last + (self.iv[self.k..].iter().sum::<u64>() + self.fin) * 1000;
                 (e, l, Action::Quiet)
             } else {
                 (e, e, Action::Retransmit)
             }
         } else {
-            let e = self.last + self.fin;
+            let e = self.last + self.fin * 1000;
             (e, e, Action::TimedOut)
         }
     }
@@ -428,6 +434,17 @@ pub fn default_schedule(tcp: bool) -> (Vec<u64>, u64) {
         (vec![], 39_500)
     } else {
         (vec![500, 1000, 2000, 4000, 8000, 16000], 8000)
+    }
+}
+
+/// the same from microsecond durations: every interval is (rto * 2^i) truncated to whole
+/// milliseconds; the TCP total is the exact sum truncated once
+pub fn configured_schedule_us(tcp: bool, rto_us: u64, n: u32, last_us: u64) -> (Vec<u64>, u64) {
+    let iv_us: Vec<u64> = (0..n).map(|i| rto_us << i).collect();
+    if tcp {
+        (vec![], (last_us + iv_us.iter().sum::<u64>()) / 1000)
+    } else {
+        (iv_us.iter().map(|x| x / 1000).collect(), last_us / 1000)
     }
 }
 
@@ -502,11 +519,21 @@ struct Eng<'c> {
     pending_obs: Option<String>,
 }
 
-fn ms_of(base: Instant, t: Instant) -> i128 {
+/// offset of `t` from `base` in microseconds
+fn us_of(base: Instant, t: Instant) -> i128 {
     if t >= base {
-        (t - base).as_millis() as i128
+        (t - base).as_micros() as i128
     } else {
-        -((base - t).as_millis() as i128)
+        -((base - t).as_micros() as i128)
+    }
+}
+
+/// a virtual instant (µs) printed in milliseconds, with a fraction only when it has one
+pub fn ft(us: i128) -> String {
+    if us % 1000 == 0 {
+        format!("{}", us / 1000)
+    } else {
+        format!("{}.{:03}", us.div_euclid(1000), us.rem_euclid(1000))
     }
 }
 
@@ -564,8 +591,8 @@ impl<'c> Eng<'c> {
         }
     }
 
-    fn at(&self, ms: u64) -> Instant {
-        self.base + Duration::from_millis(ms)
+    fn at(&self, us: u64) -> Instant {
+        self.base + Duration::from_micros(us)
     }
 
     fn call<T>(&mut self, f: impl FnOnce(&mut StunAgent) -> T) -> Option<T> {
@@ -723,7 +750,7 @@ impl<'c> Eng<'c> {
             Cancelled([u8; 12]),
         }
         let r = self.call(|a| match a.poll(t) {
-            StunAgentPollRet::WaitUntil(w) => R::Wait(ms_of(base, w)),
+            StunAgentPollRet::WaitUntil(w) => R::Wait(us_of(base, w)),
             StunAgentPollRet::SendData(tr) => R::Send(tr.data().to_vec(), tr.from, tr.to, tr.transport),
             StunAgentPollRet::TransactionTimedOut(id) => R::TimedOut(imp::tid_to_bytes(id)),
             StunAgentPollRet::TransactionCancelled(id) => R::Cancelled(imp::tid_to_bytes(id)),
@@ -756,7 +783,7 @@ impl<'c> Eng<'c> {
         let find_tid = |t: &[u8; 12]| (0..NTID).find(|i| &tid_bytes(*i) == t);
         match r {
             R::Wait(w) => {
-                self.res.log.push(format!("poll@{now} -> WaitUntil({w})"));
+                self.res.log.push(format!("poll@{} -> WaitUntil({})", ft(now as i128), ft(w)));
                 if !must.is_empty() {
                     let (i, act) = must[0];
                     let tx = &self.model.txs[&i];
@@ -765,7 +792,7 @@ impl<'c> Eng<'c> {
                         "due-event-produced",
                         "StunAgent::poll",
                         &format!("{act:?}-missed"),
-                        format!("an event: tid#{i} is due ({act:?}) at {} <= now {now} (k={}, last={}, iv={:?}, fin={})", tx.due().1, tx.k, tx.last, tx.iv, tx.fin),
+                        format!("an event: tid#{i} is due ({act:?}) at {} <= now {} (k={}, last={}, iv={:?}, fin={})", ft(tx.due().1 as i128), ft(now as i128), tx.k, ft(tx.last as i128), tx.iv, tx.fin),
                         format!("WaitUntil({w})"),
                     );
                     return None;
@@ -775,7 +802,7 @@ impl<'c> Eng<'c> {
                     // with no cancelled-retransmission transaction lo == hi == the earliest due instant
                     let lo = lo.max(now + 1).min(hi);
                     if w < lo as i128 || w > hi as i128 {
-                        let feature = if hi > now + 3_600_000 && w == (now + 3_600_000) as i128 {
+                        let feature = if hi > now + 3_600_000_000 && w == (now + 3_600_000_000) as i128 {
                             "min-due>now+3600s".to_string()
                         } else if w > hi as i128 {
                             "later-than-earliest-due".to_string()
@@ -787,19 +814,19 @@ impl<'c> Eng<'c> {
                             "waituntil-min",
                             "StunAgent::poll",
                             &feature,
-                            if lo == hi { format!("WaitUntil({hi}) = the earliest due instant over {} outstanding", self.model.txs.len()) } else { format!("WaitUntil(t) with {lo} <= t <= {hi}") },
-                            format!("WaitUntil({w}) at now = {now}"),
+                            if lo == hi { format!("WaitUntil({}) = the earliest due instant over {} outstanding", ft(hi as i128), self.model.txs.len()) } else { format!("WaitUntil(t) with {} <= t <= {}", ft(lo as i128), ft(hi as i128)) },
+                            format!("WaitUntil({}) at now = {}", ft(w), ft(now as i128)),
                         );
                         return None;
                     }
                     // model-free self-consistency
                     if let Some(prev) = self.last_wait {
                         if now < prev && w != prev as i128 {
-                            self.fail("C06", "waituntil-stable", "StunAgent::poll", "", format!("WaitUntil({prev}) again (polled early at {now})"), format!("WaitUntil({w})"));
+                            self.fail("C06", "waituntil-stable", "StunAgent::poll", "", format!("WaitUntil({}) again (polled early at {})", ft(prev as i128), ft(now as i128)), format!("WaitUntil({})", ft(w)));
                             return None;
                         }
                         if now >= prev {
-                            self.fail("C06", "waituntil-then-event", "StunAgent::poll", "", format!("an event when polled at/after the announced instant {prev}"), format!("WaitUntil({w}) at {now}"));
+                            self.fail("C06", "waituntil-then-event", "StunAgent::poll", "", format!("an event when polled at/after the announced instant {}", ft(prev as i128)), format!("WaitUntil({}) at {}", ft(w), ft(now as i128)));
                             return None;
                         }
                     }
@@ -810,7 +837,7 @@ impl<'c> Eng<'c> {
                 Some(false)
             }
             R::Send(data, from, to, transport) => {
-                self.res.log.push(format!("poll@{now} -> SendData({} bytes {:08x} to {to})", data.len(), crate::refimpl::crypto::crc32_fast(&data)));
+                self.res.log.push(format!("poll@{} -> SendData({} bytes {:08x} to {to})", ft(now as i128), data.len(), crate::refimpl::crypto::crc32_fast(&data)));
                 self.last_wait = None;
                 // which transaction?  identify by transaction id inside the bytes
                 let tidb: Option<[u8; 12]> = if data.len() >= 20 { Some(data[8..20].try_into().unwrap()) } else { None };
@@ -868,7 +895,7 @@ impl<'c> Eng<'c> {
                         "retransmit-not-early",
                         "StunAgent::poll",
                         "",
-                        format!("retransmission #{} of tid#{i} due at {e} = {} + {}", tx.k + 1, tx.last, tx.iv[tx.k]),
+                        format!("retransmission #{} of tid#{i} due at {} = {} + {}", tx.k + 1, ft(e as i128), ft(tx.last as i128), tx.iv[tx.k]),
                         format!("SendData at {now}"),
                     );
                     return None;
@@ -890,7 +917,7 @@ impl<'c> Eng<'c> {
     fn completion(&mut self, t: &[u8; 12], cancelled: bool, must: &[(usize, Action)], may: &[usize], now: u64) -> Option<bool> {
         let name = if cancelled { "TransactionCancelled" } else { "TransactionTimedOut" };
         let idx = (0..NTID).find(|i| &tid_bytes(*i) == t);
-        self.res.log.push(format!("poll@{now} -> {name}({})", hex(t)));
+        self.res.log.push(format!("poll@{} -> {name}({})", ft(now as i128), hex(t)));
         self.last_wait = None;
         let Some(i) = idx.filter(|i| self.model.txs.contains_key(i)) else {
             self.fail(
@@ -925,8 +952,8 @@ impl<'c> Eng<'c> {
                 assertion,
                 "StunAgent::poll",
                 feature,
-                format!("tid#{i}: {act:?} due at {e} (k={} of {}, last={}, fin={}, send_cancelled={}, recv_cancelled={})", tx.k, tx.iv.len(), tx.last, tx.fin, tx.send_cancelled, tx.recv_cancelled),
-                format!("{name} at {now}"),
+                format!("tid#{i}: {act:?} due at {} (k={} of {}, last={}, fin={}, send_cancelled={}, recv_cancelled={})", ft(e as i128), tx.k, tx.iv.len(), ft(tx.last as i128), tx.fin, tx.send_cancelled, tx.recv_cancelled),
+                format!("{name} at {}", ft(now as i128)),
             );
             return None;
         }
@@ -976,7 +1003,7 @@ impl<'c> Eng<'c> {
         }
         match r {
             R::Ok(data, from, to2, transport) => {
-                self.res.log.push(format!("send@{now} {kind:?} tid#{i} -> Transmit({} bytes {:08x} to {to2})", data.len(), crate::refimpl::crypto::crc32_fast(&data)));
+                self.res.log.push(format!("send@{} {kind:?} tid#{i} -> Transmit({} bytes {:08x} to {to2})", ft(now as i128), data.len(), crate::refimpl::crypto::crc32_fast(&data)));
                 if is_req && outstanding {
                     self.fail("C05", "duplicate-id-refused", "StunAgent::send", "", "Err(AlreadyInProgress)".into(), "Ok(Transmit)".into());
                     return;
@@ -996,7 +1023,7 @@ impl<'c> Eng<'c> {
                 }
             }
             R::InProgress => {
-                self.res.log.push(format!("send@{now} {kind:?} tid#{i} -> AlreadyInProgress"));
+                self.res.log.push(format!("send@{} {kind:?} tid#{i} -> AlreadyInProgress", ft(now as i128)));
                 if !(is_req && outstanding) {
                     self.fail(
                         "C05",
@@ -1011,7 +1038,7 @@ impl<'c> Eng<'c> {
                 self.ctx.count("duplicate-id-refused");
             }
             R::Err(e) => {
-                self.res.log.push(format!("send@{now} {kind:?} tid#{i} -> Err({e})"));
+                self.res.log.push(format!("send@{} {kind:?} tid#{i} -> Err({e})", ft(now as i128)));
                 self.fail("C05", "send-result", "StunAgent::send", "", if is_req && outstanding { "Err(AlreadyInProgress)".into() } else { "Ok(Transmit)".into() }, format!("Err({e})"));
             }
         }
@@ -1062,7 +1089,7 @@ impl<'c> Eng<'c> {
             R::Incoming(..) => "IncomingStun".to_string(),
             R::ParseFailed(e) => format!("parse failed: {e}"),
         };
-        self.res.log.push(format!("handle@{now} {} tid#{i} from#{from} -> {rname}", if is_response { "response" } else { "request/indication" }));
+        self.res.log.push(format!("handle@{} {} tid#{i} from#{from} -> {rname}", ft(now as i128), if is_response { "response" } else { "request/indication" }));
         if let R::ParseFailed(e) = &r {
             // the harness only hands well-formed messages to the agent
             if rp.accepted() {
@@ -1176,10 +1203,10 @@ impl<'c> Eng<'c> {
             Op::Poll(at) => {
                 let target = match (at, self.last_wait) {
                     (PollAt::AtWait, Some(w)) => w,
-                    (PollAt::Before(ms), Some(w)) => w.saturating_sub(*ms),
+                    (PollAt::Before(ms), Some(w)) => w.saturating_sub(*ms * 1000),
                     (PollAt::Half, Some(w)) => self.now + (w.saturating_sub(self.now)) / 2,
-                    (PollAt::After(ms), Some(w)) => w + ms,
-                    (PollAt::After(ms), None) => self.now + ms,
+                    (PollAt::After(ms), Some(w)) => w + ms * 1000,
+                    (PollAt::After(ms), None) => self.now + ms * 1000,
                     _ => self.now,
                 };
                 self.now = self.now.max(target);
@@ -1229,7 +1256,7 @@ impl<'c> Eng<'c> {
                 });
                 self.last_wait = None;
                 self.rec(|| json!({"op": if full { "cancel" } else { "cancel_retrans" }, "tid": hex(&tid_bytes(i)), "found": found}));
-                self.res.log.push(format!("{}@{} tid#{i} -> {found:?}", if full { "cancel" } else { "cancel_retransmissions" }, self.now));
+                self.res.log.push(format!("{}@{} tid#{i} -> {found:?}", if full { "cancel" } else { "cancel_retransmissions" }, ft(self.now as i128)));
                 if let Some(tx) = self.model.txs.get_mut(&i) {
                     tx.send_cancelled = true;
                     if full {
@@ -1238,23 +1265,29 @@ impl<'c> Eng<'c> {
                     self.ctx.count(if full { "cancel-calls" } else { "cancel-retransmissions-calls" });
                 }
             }
-            Op::Configure { tid, rto, n, last } => {
+            Op::Configure { tid, rto, n, last, rto_us, last_us } => {
                 let i = *tid as usize % NTID;
                 let id = imp::tid_from_bytes(&tid_bytes(i));
                 let (rto, n, last) = (*rto, *n, *last);
+                // durations with a sub-millisecond part: the agent works in whole milliseconds, each
+                // interval is initial_rto * 2^i truncated to ms (not the truncated rto doubled)
+                let (rto_total_us, last_total_us) = (rto * 1000 + (*rto_us % 1000) as u64, last * 1000 + (*last_us % 1000) as u64);
                 let found = self.call(|a| match a.mut_request_transaction(id) {
                     Some(mut r) => {
-                        r.configure_timeout(Duration::from_millis(rto), n, Duration::from_millis(last));
+                        r.configure_timeout(Duration::from_micros(rto_total_us), n, Duration::from_micros(last_total_us));
                         true
                     }
                     None => false,
                 });
                 self.last_wait = None;
-                self.rec(|| json!({"op": "configure", "tid": hex(&tid_bytes(i)), "rto": rto, "n": n, "last": last, "found": found}));
-                self.res.log.push(format!("configure@{} tid#{i} ({rto},{n},{last}) -> {found:?}", self.now));
+                self.rec(|| json!({"op": "configure", "tid": hex(&tid_bytes(i)), "rto_us": rto_total_us, "n": n, "last_us": last_total_us, "found": found}));
+                self.res.log.push(format!("configure@{} tid#{i} ({rto_total_us}us,{n},{last_total_us}us) -> {found:?}", ft(self.now as i128)));
                 let tcp = self.model.tcp;
                 if let Some(tx) = self.model.txs.get_mut(&i) {
-                    let (iv, fin) = configured_schedule(tcp, rto, n, last);
+                    let (iv, fin) = configured_schedule_us(tcp, rto_total_us, n, last_total_us);
+                    if rto_total_us % 1000 != 0 || last_total_us % 1000 != 0 {
+                        self.ctx.count("configure-calls-with-sub-millisecond-durations");
+                    }
                     tx.iv = iv;
                     tx.fin = fin;
                     self.ctx.count("configure-calls");
@@ -1288,7 +1321,12 @@ impl<'c> Eng<'c> {
                 }
             }
             Op::Advance(ms) => {
-                self.now += ms;
+                self.now += ms * 1000;
+            }
+            Op::AdvanceUs(us) => {
+                // moves the sub-millisecond phase of every later instant
+                self.now += us;
+                self.ctx.count("sub-millisecond-advances");
             }
         }
     }
@@ -1318,7 +1356,7 @@ impl<'c> Eng<'c> {
                     if let Some(w) = self.last_wait {
                         self.now = self.now.max(w);
                     } else {
-                        self.now += 1;
+                        self.now += 1000;
                     }
                 }
                 None => return,
@@ -1328,7 +1366,7 @@ impl<'c> Eng<'c> {
             return;
         }
         // long after everything completed nothing may happen any more
-        self.now += 20_000_000;
+        self.now += 20_000_000_000;
         let t = self.at(self.now);
         let r = self.call(|a| match a.poll(t) {
             StunAgentPollRet::WaitUntil(_) => None,
@@ -1469,7 +1507,8 @@ pub fn gen_configure(rng: &mut Rng, tid: u8) -> Op {
         3 => 60_000,
         _ => rng.below(60_001),
     };
-    Op::Configure { tid, rto, n: rng.below(9) as u32, last }
+    let (rto_us, last_us) = if rng.chance(1, 4) { (*rng.pick(&[1u16, 499, 500, 501, 999, 250, 750]), *rng.pick(&[0u16, 1, 500, 999])) } else { (0, 0) };
+    Op::Configure { tid, rto, n: rng.below(9) as u32, last, rto_us, last_us }
 }
 
 pub fn gen_poll(rng: &mut Rng) -> Op {
@@ -1501,7 +1540,13 @@ pub fn gen_history(rng: &mut Rng, len: usize, ntid: u8, emphasis: &str) -> Histo
                 85..=88 => Op::CancelRetrans(tid),
                 89..=90 => Op::Cancel(tid),
                 91..=94 => Op::Response { tid, from: rng.below(NCORE as u64) as u8, error: false, seal: RespSeal::Unsigned, fp: false },
-                _ => Op::Advance(rng.below(3_000)),
+                _ => {
+                    if rng.chance(1, 3) {
+                        Op::AdvanceUs(*rng.pick(&[1u64, 250, 499, 500, 600, 999, 1001, 1500]))
+                    } else {
+                        Op::Advance(rng.below(3_000))
+                    }
+                }
             },
             "auth" => match w {
                 0..=17 => Op::Send { kind: MsgKind::Request, tid, dest: rng.below(NCORE as u64) as u8, seal: *rng.pick(&[Sealing::None, Sealing::Sha1, Sealing::Sha256, Sealing::Both, Sealing::Sha1]), payload: rng.below(600) as u16 },
@@ -1530,7 +1575,13 @@ pub fn gen_history(rng: &mut Rng, len: usize, ntid: u8, emphasis: &str) -> Histo
                 93..=95 => Op::SetRemote(rng.below(3) as u8),
                 96 => Op::SetLocal(rng.below(4) as u8),
                 97 => Op::SendData { dest: rng.below(NCORE as u64) as u8, len: rng.below(1500) as u16 },
-                _ => Op::Advance(rng.below(5_000)),
+                _ => {
+                    if rng.chance(1, 3) {
+                        Op::AdvanceUs(*rng.pick(&[1u64, 250, 499, 500, 600, 999, 1001, 1500]))
+                    } else {
+                        Op::Advance(rng.below(5_000))
+                    }
+                }
             },
         };
         ops.push(op);
@@ -1554,7 +1605,7 @@ pub fn small_alphabet() -> Vec<Op> {
         Op::Incoming { request: true, tid: 3, from: 3 },
         Op::Cancel(0),
         Op::CancelRetrans(1),
-        Op::Configure { tid: 0, rto: 100, n: 2, last: 300 },
+        Op::Configure { tid: 0, rto: 100, n: 2, last: 300, rto_us: 0, last_us: 0 },
         Op::SetRemote(2),
     ]
 }
